@@ -223,6 +223,26 @@ pub fn set_real_drops(on: bool) {
     REAL_DROPS.with(|c| c.set(on));
 }
 
+/// A channel message. `report_to`: if the message is dropped without having been received, its
+/// destructor sends `v + 1` on that channel.
+pub struct Msg {
+    v: u64,
+    report_to: Option<loom::sync::mpsc::Sender<Msg>>,
+}
+impl Msg {
+    fn received(mut self) -> u64 {
+        self.report_to = None;
+        self.v
+    }
+}
+impl Drop for Msg {
+    fn drop(&mut self) {
+        if let Some(tx) = self.report_to.take() {
+            let _ = tx.send(Msg { v: self.v + 1, report_to: None });
+        }
+    }
+}
+
 pub struct Payload {
     pub arc_idx: u8,
     /// stands for the payload's memory: holders read it, the destructor writes it
@@ -360,8 +380,8 @@ struct Env {
     rwlocks: Vec<loom::sync::RwLock<()>>,
     condvars: Vec<loom::sync::Condvar>,
     notifies: Vec<loom::sync::Notify>,
-    senders: Vec<loom::sync::mpsc::Sender<u64>>,
-    receivers: RefCell<Vec<Option<loom::sync::mpsc::Receiver<u64>>>>,
+    senders: Vec<loom::sync::mpsc::Sender<Msg>>,
+    receivers: RefCell<Vec<Option<loom::sync::mpsc::Receiver<Msg>>>>,
     cells: Vec<loom::cell::UnsafeCell<u64>>,
     join: RefCell<Vec<Option<loom::thread::JoinHandle<()>>>>,
     threads: RefCell<Vec<Option<loom::thread::Thread>>>,
@@ -378,7 +398,7 @@ struct Ctx {
     mguards: Vec<Option<loom::sync::MutexGuard<'static, ()>>>,
     rguards: Vec<Vec<loom::sync::RwLockReadGuard<'static, ()>>>,
     wguards: Vec<Option<loom::sync::RwLockWriteGuard<'static, ()>>>,
-    rx: Vec<Option<loom::sync::mpsc::Receiver<u64>>>,
+    rx: Vec<Option<loom::sync::mpsc::Receiver<Msg>>>,
     arcs: Vec<Vec<LArc>>,
     /// Track values / raw blocks are owned by the thread that created them (objects only move
     /// between threads through loom-visible synchronisation)
@@ -748,16 +768,21 @@ fn exec(cx: &mut Ctx, op: &Op, pc: usize) -> Option<u64> {
             None
         }
         Op::Send { c, v } => {
-            let _ = env.senders[c as usize].send(v);
+            let _ = env.senders[c as usize].send(Msg { v, report_to: None });
+            None
+        }
+        Op::SendBomb { c, v } => {
+            let tx = env.senders[c as usize].clone();
+            let _ = env.senders[c as usize].send(Msg { v, report_to: Some(tx) });
             None
         }
         Op::Recv { c } => match cx.rx[c as usize].as_ref() {
-            Some(rx) => Some(rx.recv().unwrap_or(R_ERR)),
+            Some(rx) => Some(rx.recv().map(Msg::received).unwrap_or(R_ERR)),
             None => None,
         },
         Op::TryRecv { c } => match cx.rx[c as usize].as_ref() {
             Some(rx) => Some(match rx.try_recv() {
-                Ok(v) => v,
+                Ok(m) => m.received(),
                 Err(std::sync::mpsc::TryRecvError::Empty) => R_EMPTY,
                 Err(std::sync::mpsc::TryRecvError::Disconnected) => R_ERR,
             }),
@@ -1099,7 +1124,7 @@ fn model_body(p: StdArc<Program>) {
     let mut senders = Vec::new();
     let mut receivers = Vec::new();
     for _ in 0..p.n_chan {
-        let (tx, rx) = loom::sync::mpsc::channel::<u64>();
+        let (tx, rx) = loom::sync::mpsc::channel::<Msg>();
         senders.push(tx);
         receivers.push(Some(rx));
     }
